@@ -316,12 +316,12 @@ def rk_interpreted(ctx):
     if any(k[1] == "uninterpretable" for k in first):
         raise AnalysisError("C03.RK: " + [m for k, m in first.items() if k[1] == "uninterpretable"][0])
     for (q, key), msg in sorted(first.items()):
-        r.violation("C03.RK", q, key, msg, repo.fn(q))
+        r.violation("C03.RK", q, key, msg, repo.where(q))
     if not first:
         for q in (f"{LOC}:SingleInterval.extract_sequence", f"{LOC}:CompoundInterval.extract_sequence",
                   "sequence.sequence:Sequence.__getitem__", "sequence.sequence:Sequence.reverse_complement",
                   "sequence.sequence:Sequence.append"):
-            r.ok("C03.RK", q, "image oracle on all enumerated located sequences", repo.fn(q), f"{n} interpreted evaluations")
+            r.ok("C03.RK", q, "image oracle on all enumerated located sequences", repo.where(q), f"{n} interpreted evaluations")
 
 
 def r1_structural(ctx):
